@@ -5,7 +5,7 @@ from analysis.facts import norm_path
 
 BPE = 'BPETokenizerConfig'
 BYTE = 'ByteTokenizerConfig'
-CHAR = 'VocabTokenizerConfig'
+CHAR = 'CharTokenizerConfig'
 
 
 def body_for(ctx, path, self_pat=None):
